@@ -189,10 +189,11 @@ def judge_file(tp):
     return rejected
 
 
-def run_burst(bindir, profile, wd, tag, n, readers, gate=True, timeout=240):
+def run_burst(bindir, profile, wd, tag, n, readers, gate=True, timeout=240, lookups=False):
     """one sustained single-writer / multi-reader run (burstdrv); returns dict(outcome=ok|hang|crash, bad=[...], summary)"""
     tp = os.path.join(wd, "burst_%s.ndjson" % tag)
-    cmd = [os.path.join(bindir, "burstdrv"), "--n", str(n), "--readers", str(readers), "--out", tp, "--gate", "1" if gate else "0"]
+    cmd = [os.path.join(bindir, "burstdrv"), "--n", str(n), "--readers", str(readers), "--out", tp, "--gate", "1" if gate else "0",
+           "--lookups", "1" if lookups else "0"]
     try:
         p = subprocess.run(cmd, stdout=subprocess.PIPE, stderr=subprocess.STDOUT, text=True, timeout=timeout)
         rc = p.returncode
@@ -250,20 +251,36 @@ def burst_checks(V, tier, wd):
                         dict(kind="burst", profile=profile, n=n, readers=readers, gate=True, observation=b))
         C.log("[C14] burst %s: %d stores, %d readers, %s observations (%d judged by TraceBurst), outcome %s, %d unexplained" % (
             profile, n, readers, r["summary"].get("observations", "?"), r["lines"], r["outcome"], len(r["bad"])))
-    # the known growth race (F-C14-2): same workload without the gate, dev profile (2048-byte chunks)
+    # growth steps with readers inside, dev profile (2048-byte chunks), no gate:
+    # (1) readers that only look events up by id and never read the bytes: the run must complete (the reader / resize
+    #     deadlock F-C14-2 was repaired in f07935a; a hang here is a violation again)
+    # (2) readers that read what they are handed: the mapping moves under them - known finding F-C14-3 (crash / garbage)
     probes = []
     bindir = C.build_harness("dev", bins=["burstdrv"])
+    for i in range(10 if tier == "quick" else 40):
+        r = run_burst(bindir, "dev", wd, "l%d" % i, 400, 6, gate=False, timeout=120, lookups=True)
+        what = r["outcome"] if r["outcome"] != "ok" else ("garbage" if r["bad"] else "ok")
+        probes.append("lookups:" + what)
+        if what == "hang":
+            V.violation("C14:GrowthDeadlock:hang", "readers looking events up by id while a store grows the event map (dev profile, no gate): "
+                        "no thread makes progress any more - %s" % r["note"], dict(kind="burst", profile="dev", n=400, readers=6, gate=False, lookups=True))
+        elif what != "ok":
+            V.violation("C14:GrowthRace:%s" % what, "readers looking events up by id while a store grows the event map (dev profile, no gate): %s %s" %
+                        (what, r["note"]), dict(kind="burst", profile="dev", n=400, readers=6, gate=False, lookups=True))
     for i in range(6 if tier == "quick" else 12):
-        if tier == "quick" and any(x != "ok" for x in probes):
+        if tier == "quick" and any(x in ("reads:crash", "reads:garbage") for x in probes):
             break           # shown once; the thorough tier counts how often
         r = run_burst(bindir, "dev", wd, "u%d" % i, 400, 6, gate=False, timeout=120)
-        probes.append(r["outcome"] if not r["bad"] else "garbage")
-        if r["outcome"] != "ok" or r["bad"]:
-            what = r["outcome"] if r["outcome"] != "ok" else "garbage"
+        what = r["outcome"] if r["outcome"] != "ok" else ("garbage" if r["bad"] else "ok")
+        probes.append("reads:" + what)
+        if what == "hang":
+            V.violation("C14:GrowthDeadlock:hang", "readers running while a store grows the event map (dev profile, no gate): no thread makes "
+                        "progress any more - %s" % r["note"], dict(kind="burst", profile="dev", n=400, readers=6, gate=False))
+        elif what != "ok":
             V.violation("C14:GrowthRace:%s" % what,
-                        "readers running while a store grows the event map (dev profile, no gate): %s %s" % (what, r["note"]),
+                        "readers reading event bytes while a store grows the event map (dev profile, no gate): %s %s" % (what, r["note"]),
                         dict(kind="burst", profile="dev", n=400, readers=6, gate=False))
-    C.log("[C14] growth-race probe (ungated): %s" % probes)
+    C.log("[C14] growth probes (ungated): %s" % probes)
     return runs, probes
 
 
